@@ -16,6 +16,8 @@ AL = Sym("alpha", ("float", "notnone"))
 def run(ctx, chk, tier):
     from . import c10 as _c10
     _c10.copy_derivations(ctx, chk, rule="R14.6")   # objects derived by a shallow copy must not keep the parent's caches
+    # functools caches on the sampled classes must be coherent with every writer (a cached ratio that survives a setter feeds stale draw parameters)
+    _c10.global_state_rule(ctx, chk, rule="R14.6", modules=("scores", "group_scores"), strict=False)
     from . import c01 as _c01
     _c01.flag_identity(ctx, chk)   # direction flags: identity comparisons need BinaryLabel members on every construction path
     chk.rule_text = ("obligations per receiver class (Scores, GroupScores) x metric kind (callable, name): replicate loop, name resolution, CI assembly; custom sampler dispatch; "
@@ -159,28 +161,30 @@ def run(ctx, chk, tier):
                     b.get("config") is hold["cfg"], isinstance(kwd, Dct) and kwd.items.get(Const("threshold")) == KW),
                     "replicates of this object, point estimate metric(self, **kwargs), caller's alpha, config.bootstrap_method", ctx.where(q))
         # ---------------- R14.4 custom sampler
-        smp = Sym("sampler", ("callable", "param", "notnone"))
-        hold2 = {}
+        for strat_ in (None, "by_label", "by_group"):
+            stag_ = "" if strat_ is None else ":" + strat_
+            smp = Sym("sampler", ("callable", "param", "notnone"))
+            hold2 = {}
 
-        def thunk2():
-            obj = ctx.scores_obj("pos", "pos", cls)
-            hold2["obj"] = obj
-            return ev.call(ctx.method(obj, "bootstrap_sample"), [], {"config": c11.make_config(ctx, sampling_method=smp)})
-        outs = ctx.explore(thunk2, chk)
-        rets = returns(outs)
-        q = cls + BS
-        want_key = "call($sampler,($%s,))" % hold2["obj"].key if hold2 else ""
-        if len(rets) == 1 and isinstance(rets[0].value, App) and rets[0].value.fn == "call" and rets[0].value.args[0] == smp and not rets[0].value.kw \
-                and len(rets[0].value.args[1].items) == 1:
-            touched = [e for e in rets[0].events if e["kind"] == "foreign_attr_store"]
-            if touched:
-                chk.violation("R14.4", q, short + ":custom-sampler-modified", "the sampler's result is modified before it is returned: .%s re-bound" % touched[0]["attr"],
-                              "sampler(self) used exactly as the sampler produced it (rows of bootstrap_metric are the metric of THAT sample)",
-                              "%s line %s" % (ctx.where(q), getattr(touched[0].get("node"), "lineno", "?")))
+            def thunk2():
+                obj = ctx.scores_obj("pos", "pos", cls)
+                hold2["obj"] = obj
+                return ev.call(ctx.method(obj, "bootstrap_sample"), [], {"config": c11.make_config(ctx, sampling_method=smp, stratified=strat_)})
+            outs = ctx.explore(thunk2, chk)
+            rets = returns(outs)
+            q = cls + BS
+            want_key = "call($sampler,($%s,))" % hold2["obj"].key if hold2 else ""
+            if len(rets) == 1 and isinstance(rets[0].value, App) and rets[0].value.fn == "call" and rets[0].value.args[0] == smp and not rets[0].value.kw \
+                    and len(rets[0].value.args[1].items) == 1:
+                touched = [e for e in rets[0].events if e["kind"] == "foreign_attr_store"]
+                if touched:
+                    chk.violation("R14.4", q, short + stag_ + ":custom-sampler-modified", "the sampler's result is modified before it is returned: .%s re-bound" % touched[0]["attr"],
+                                  "sampler(self) used exactly as the sampler produced it (rows of bootstrap_metric are the metric of THAT sample)",
+                                  "%s line %s" % (ctx.where(q), getattr(touched[0].get("node"), "lineno", "?")))
+                else:
+                    chk.hold("R14.4", short + stag_, "custom sampler: result of sampler(self) returned unchanged")
             else:
-                chk.hold("R14.4", short, "custom sampler: result of sampler(self) returned unchanged")
-        else:
-            chk.violation("R14.4", q, short + ":custom-sampler", [show(o.value, 100) for o in rets] or [show(o.value, 100) for o in outs], "sampler(self) returned unchanged", ctx.where(q))
+                chk.violation("R14.4", q, short + stag_ + ":custom-sampler", [show(o.value, 100) for o in rets] or [show(o.value, 100) for o in outs], "sampler(self) returned unchanged", ctx.where(q))
     # ---------------- R14.5 entropy sources
     n = 0
     bad = {}
